@@ -438,7 +438,7 @@ EXTRA_MODULES = {"C14": ["TB.Props.C14run", "TB.Props.Outcome"], "C03": ["TB.Pro
                  "C11": ["TB.Props.C01bytes", "TB.Props.C04h", "TB.Props.C04hist", "TB.Props.C02chain", "TB.Props.TopLevel"],
                  "C02": ["TB.Props.C02run", "TB.Props.C02chain", "TB.Props.TopLevel"], "C16": ["TB.Props.C16run", "TB.Props.C16total", "TB.Props.Outcome"],
                  "C04": ["TB.Props.C04a", "TB.Props.C04c", "TB.Props.C04h", "TB.Props.C04hist", "TB.Props.C06layout", "TB.Props.TopLevel"],
-                 "C15": ["TB.Props.C15exact", "TB.Props.C15avail", "TB.Props.C04a", "TB.Props.C04c", "TB.Props.C02chain", "TB.Props.Outcome"], "C12": ["TB.Props.C06layout"],
+                 "C15": ["TB.Props.C15exact", "TB.Props.C15avail", "TB.Props.C15piece", "TB.Props.C04a", "TB.Props.C04c", "TB.Props.C02chain", "TB.Props.Outcome"], "C12": ["TB.Props.C06layout"],
                  "C05": ["TB.Props.C05writes", "TB.Props.C05ops", "TB.Props.C05reads", "TB.Props.C05reads6", "TB.Props.C05reads7", "TB.Props.OrderIndep"], "C06": ["TB.Props.C06layout"]}
 
 PROPS = {
